@@ -106,7 +106,8 @@ def servedHeader (s : CacheStatus) (f : Freshness) (now : Int) (h : Header) (cc 
 def serveStale (f : Freshness) (now : Int) (stored : Entry) : Resp :=
   respWith stored.resp (servedHeader .stale f now stored.resp.header (parseCC stored.resp.header))
 
-/-- HandleValidationResponse; `reqH` is the header list of the conditional request -/
+/-- HandleValidationResponse; `reqH` is the header list of the CLIENT's request: what a full reply is
+    stored for (the conditional request only goes upstream) -/
 def handleValidation (cfg : Cfg) (method : Str) (reqH : Header) (key : Str) (stored : Entry)
     (refs : List Ref) (refIndex : Option Nat) (f : Freshness) (ccReq : Directives)
     (mustValidate : Bool) (start : Int) (ans : OriginAns) (k : Result → Prog) : Prog :=
@@ -140,7 +141,7 @@ def fixAns (cfg : Cfg) : OriginAns → OriginAns
 /-! ### roundtripper.go -/
 
 /-- backgroundRevalidate -/
-def backgroundRevalidate (cfg : Cfg) (method : Str) (condH : Header) (key : Str) (stored : Entry)
+def backgroundRevalidate (cfg : Cfg) (method : Str) (condH clientH : Header) (key : Str) (stored : Entry)
     (f : Freshness) (ccReq : Directives) (start : Int) : Prog :=
   Prog.origin method condH (some cfg.swrTimeout) fun ans =>
     match fixAns cfg ans with
@@ -157,7 +158,7 @@ def backgroundRevalidate (cfg : Cfg) (method : Str) (condH : Header) (key : Str)
               | some own0 =>
                 let own := parsedEntry own0
                 if own.requestedAt ≠ stored.requestedAt || own.receivedAt ≠ stored.receivedAt then .ret .done
-                else handleValidation cfg method condH key own refs (some i) f ccReq false start a
+                else handleValidation cfg method clientH key own refs (some i) f ccReq false start a
                        (fun _ => .ret .done)
 
 /-- handleCacheMiss -/
@@ -182,7 +183,7 @@ def serveFromCache (f : Freshness) (now : Int) (stored : Entry) (ccResp : Direct
 def revalidateProg (cfg : Cfg) (t0 : Int) (req : Req) (stored : Entry) (key : Str) (refs : List Ref)
     (refIndex : Nat) (f : Freshness) (ccReq : Directives) (mustValidate : Bool) : Prog :=
   Prog.origin req.method (withConditional req.header stored.resp.header) none fun ans =>
-    handleValidation cfg req.method (withConditional req.header stored.resp.header) key stored refs
+    handleValidation cfg req.method req.header key stored refs
       (some refIndex) f ccReq mustValidate t0 (fixAns cfg ans) (fun r => .ret r)
 
 /-- the response of the stale-while-revalidate path -/
@@ -213,7 +214,7 @@ def handleCacheHit (cfg : Cfg) (t0 : Int) (req : Req) (stored : Entry) (key : St
     match ccResp.staleWhileRevalidate with
     | some swr =>
       if inSwrWindow tf.1 t0 swr then
-        Prog.spawn (backgroundRevalidate cfg req.method (withConditional req.header stored.resp.header) key stored tf.1 ccReq t0)
+        Prog.spawn (backgroundRevalidate cfg req.method (withConditional req.header stored.resp.header) req.header key stored tf.1 ccReq t0)
           (.ret (.resp (swrResponse tf.1 t0 stored ccResp)))
       else revalidateProg cfg t0 req stored key refs refIndex tf.1 ccReq mv
     | none => revalidateProg cfg t0 req stored key refs refIndex tf.1 ccReq mv
